@@ -514,6 +514,7 @@ Definition lookup_name (G : genv) (ρ : env) (x : string) : res value :=
                       then Ok (VBuiltin x)
                       else if existsb (String.eqb x) ["float"; "list"; "tuple"; "dict"; "object"]
                       then Ok (VClass x)
+                      else if String.eqb x "NotImplemented" then Ok (VBuiltin "NotImplemented")
                       else Err "NameError"
                   end
               end
